@@ -296,6 +296,14 @@ def run(ctx):
         kind = r.choice(("eof", "finished", "metadata", "nak", "keep_alive"))
         cfg = C.rand_cfg(r)
         k_pdu(ctx, kind, cfg, C.rand_params(r, kind, cfg), via="setters", seed=ctx.seed * 1_000_003 + ctx.shard[0] * 100_003 + j)
+    # PDUs with the CRC flag whose running CRC is exactly 0x0000 / 0xFFFF at the end of the header
+    for target in (0x0000, 0xFFFF):
+        for kind in C.DIRECTIVE_KINDS:
+            cfg = C.rand_cfg(r, crc=1, seqw=r.choice((2, 4, 8)))
+            got = C.craft_crc_boundary(kind, cfg, C.rand_params(r, kind, cfg), "header", target)
+            if got is not None:
+                ctx.table("crc_register_at_boundary", f"{kind}/header/{target:04x}")
+                k_pdu(ctx, kind, got[0], got[1], model_fed=bool(target))
     # one caller-owned configuration re-used (and updated in place) for several PDUs
     for j in range(ctx.n(700, 50_000)):
         k_conf_reuse(ctx, C.DIRECTIVE_KINDS[j % 7], ctx.seed * 1_000_003 + ctx.shard[0] * 100_003 + j)
